@@ -285,6 +285,15 @@ def r11c(ctx):
     ok = ok and len(m) == 1 and u(m[0].iter) == "enumerate(indices.attrs['keys'])" and any(isinstance(x, ast.If) and u(x.test) == "key == encoded_name" for x in m[0].body)
     ctx.check(ok, "R11c", f"{W}._write_indices", "the (start, length) pair is stored at [event counter, column whose key matches the table name]",
               "", key_detail="index store shape")
+    # ... for every call, also for length 0: the preset (current counter, 0) of tables an event does not contribute to is what the reader's
+    # chunk bounds rely on, so the store must not be skipped on any condition other than the key match
+    st = [n for n in ast.walk(wf) if isinstance(n, ast.Assign) and u(n.targets[0]).startswith("indices[global_index_value")]
+    ok = len(st) == 1
+    if ok:
+        g = guards(st[0], stop=m[0]) if m else []
+        ok = [u(t) for t, pol in g] == ["key == encoded_name"] and all(pol for _, pol in g)
+    ctx.check(ok, "R11c", f"{W}._write_indices", "the index entry is written unconditionally once the column is found (zero-length entries included)",
+              str([u(t) for t, _ in guards(st[0], stop=wf)]) if st else "", key_detail="index store unconditional")
 
 
 def dict_keys_of_locations(fn):
@@ -369,24 +378,47 @@ def r11d(ctx):
     ctx.analysed["constant_key_uses"] = n_use
 
 
+def keyed_tables(fn):
+    """locals bound to a dataset whose columns are addressed through attrs['keys'] in this function"""
+    out = set()
+    for n in ast.walk(fn):
+        if isinstance(n, ast.Subscript) and u(n).endswith(".attrs['keys']") and isinstance(n.value, ast.Attribute) and isinstance(n.value.value, ast.Name):
+            out.add(n.value.value.id)
+    return out
+
+
 def r11e(ctx):
     repo = ctx.repo
-    ctx.rule("R11e", "inside a search loop `for K, match in enumerate(<table>.attrs['keys'])` stores into <table> use K as the key-axis index",
-             expected=2, kind="N")
+    ctx.rule("R11e", "every store into a table whose columns are named by attrs['keys'] happens inside a search loop `for K, match in enumerate(<table>.attrs['keys'])` "
+             "and uses K on the key axis", expected=3, kind="N")
     w = repo.cls(W)
     for name, (kind, fn) in w.methods.items():
-        for loop in ast.walk(fn):
-            if not (isinstance(loop, ast.For) and is_call(loop.iter, func="enumerate") and loop.iter.args
-                    and u(loop.iter.args[0]).endswith(".attrs['keys']") and isinstance(loop.target, ast.Tuple)):
+        if name in ("_write_metadata", "_write_indices"):
+            continue            # their own protocol is R11h / R11c
+        tabs = keyed_tables(fn)
+        for n in ast.walk(fn):
+            if not (isinstance(n, ast.Assign) and isinstance(n.targets[0], ast.Subscript) and isinstance(n.targets[0].value, ast.Name) and n.targets[0].value.id in tabs):
                 continue
-            idx = loop.target.elts[0].id
-            dsname = u(loop.iter.args[0])[: -len(".attrs['keys']")]
-            for n in ast.walk(loop):
-                if isinstance(n, ast.Assign) and isinstance(n.targets[0], ast.Subscript) and u(n.targets[0].value) == dsname:
-                    sl = n.targets[0].slice
-                    key_axis = sl.elts[-1] if isinstance(sl, ast.Tuple) else sl
-                    ctx.check(u(key_axis) == idx, "R11e", f"{W}.{name}", f"store into {dsname} inside the key search uses the matched column `{idx}`",
-                              f"`{u(n.targets[0])}`", key_detail=f"column index of {u(n.targets[0]).split('=')[0]}", loc=ctx.loc("pyrex.io", n))
+            tgt = n.targets[0]
+            ds = tgt.value.id
+            sl = tgt.slice
+            if not isinstance(sl, ast.Tuple):
+                continue            # whole-row stores do not address a key column
+            key_axis = sl.elts[-1]
+            loop = parent(n)
+            idx = None
+            while loop is not None and loop is not fn:
+                if (isinstance(loop, ast.For) and is_call(loop.iter, func="enumerate") and loop.iter.args and u(loop.iter.args[0]) == f"{ds}.attrs['keys']"
+                        and isinstance(loop.target, ast.Tuple)):
+                    idx = loop.target.elts[0].id
+                    break
+                loop = parent(loop)
+            if idx is None:
+                ctx.bad("R11e", f"{W}.{name}", f"store into the keyed table `{ds}` is made inside a search over {ds}.attrs['keys']", f"`{u(tgt)}` addresses a column without looking its key up",
+                        key_detail=f"column of {u(tgt)} not looked up", loc=ctx.loc("pyrex.io", n))
+                continue
+            ctx.check(u(key_axis) == idx, "R11e", f"{W}.{name}", f"store into {ds} inside the key search uses the matched column `{idx}`", f"`{u(tgt)}`",
+                      key_detail=f"column index of {u(tgt).split('=')[0]}", loc=ctx.loc("pyrex.io", n))
 
 
 def r11g(ctx):
@@ -524,7 +556,19 @@ def returns(fn):
     return r_(fn)
 
 
+def r11i(ctx):
+    """the reading half of 'event i gets its own rows' (= R12a of C12)"""
+    from . import c12
+    ctx.rule("R11i", "the reader cuts each event's rows with that event's own start entry (= R12a)", expected=1, kind="N")
+    sub = type(ctx)(ctx.repo, ctx.prop, ctx.tier)
+    c12.r12a(sub)
+    for o in sub.obs:
+        o.rule = "R11i"
+        ctx.obs.append(o)
+
+
 def run(ctx):
+    ctx.guard(r11i)
     ctx.guard(r11h)
     ctx.guard(r11a)
     ctx.guard(r11b)
@@ -536,6 +580,11 @@ def run(ctx):
 
 SELFTEST = {
     "faults": [
+        {"name": "antenna flags written straight into column i (no key search)", "file": "pyrex/io.py",
+         "old": "                    for k, match in enumerate(extra_data.attrs['keys']):\n                        if \"antenna_\"+str(i)==self._decode_attr(match):\n                            for j, wave in enumerate(ant.all_waveforms):\n                                extra_data[start_index+j, k] = ant.trigger(wave)",
+         "new": "                    for j, wave in enumerate(ant.all_waveforms):\n                        extra_data[start_index+j, i] = ant.trigger(wave)", "rule": "R11e"},
+        {"name": "zero-length index entries skipped", "file": "pyrex/io.py", "old": "                indices[global_index_value, i] = (start_index, length)\n",
+         "new": "                if length>0:\n                    indices[global_index_value, i] = (start_index, length)\n", "rule": "R11c"},
         {"name": "float key stored at the string table's column", "file": "pyrex/io.py", "old": "                    write_value(val, float_data, j, i, index)", "new": "                    write_value(val, float_data, i, j, index)",
          "rule": "R11h"},
         {"name": "particle rows ignore the start index", "file": "pyrex/io.py", "old": "                dataset[indices[1]+indices[2], indices[0]] = value", "new": "                dataset[indices[1], indices[0]] = value",
